@@ -565,7 +565,7 @@ impl Process {
 //@@ extract file=acts/src/scheduler/process/process.rs in="impl Process" item="fn do_tick" name=Process::do_tick props=C19
 //@@ opt rewrites=R1,R2,R3,R5,R13,R22
 //@@ rw R7 `self . find_tasks ( | t | t . hooks ( ) . contains_key ( & TaskLifeCycle :: Timeout ) )` => `self.tasks_with_timeout_hooks()`
-//@@ rw R10 `$X:chain . unwrap_or_else ( | err | $B:block )` => `ignore_err($X)`
+//@@ rw R10 `$X:chain . unwrap_or_else ( | err | $B:block )` => `ignore_err($X)` {*}
 //@@ spec
         requires old(h).wf()
         ensures
@@ -583,7 +583,7 @@ impl Process {
 //@@ proof after=create_context#1
             let ghost h1 = *h;
             proof { assert(h1.ctx_log.last() == t.id@); assert(h1.ctx_log[h1.ctx_log.len() - 1] == t.id@); assert(h1.ctx_log.contains(t.id@)); }
-//@@ proof after=ignore_err#1
+//@@ proof after=run_hooks_timeout#1
             proof {
                 assert(h1.ctx_log.is_prefix_of(h.ctx_log));
                 assert(h0.ctx_log.is_prefix_of(h1.ctx_log)) by { assert(h1.ctx_log.subrange(0, h0.ctx_log.len() as int) =~= h0.ctx_log); }
